@@ -239,11 +239,14 @@ func init() {
 			debug.SetGCPercent(-1) // no GC: sync.Pool is never purged, measurements are not disturbed
 			maxLen := 2
 			if c.Thorough() {
-				maxLen = 3
+				maxLen = 4
 			}
 			var item int64
 			try := func(s c20Shape) {
 				item++
+				if item%4000 == 0 {
+					runtime.GC() // the collector is off during measurements; the garbage of earlier shapes is dropped here
+				}
 				if !c.Mine(item) {
 					return
 				}
